@@ -29,6 +29,7 @@ func MarshalIterator(it Iterator) ([]byte, error) {
 	}
 	writer := stream.NewBufferWriter(nil)
 	writer.PutByte(byte(it.FieldType()))
+	hasData := false
 	for it.HasNext() {
 		startTime, fIt := it.Next()
 		if fIt == nil {
@@ -43,7 +44,13 @@ func MarshalIterator(it Iterator) ([]byte, error) {
 		writer.PutVarint32(int32(length))
 		if length > 0 {
 			writer.PutBytes(data)
+			hasData = true
 		}
+	}
+	if !hasData {
+		// no segment has any value: callers drop a field without data(len(data) == 0),
+		// else a group without data is sent and takes part in order by/limit
+		return nil, nil
 	}
 	return writer.Bytes()
 }
